@@ -1,4 +1,5 @@
 import Psa.Registry
+import Psa.Digits
 namespace PSA
 
 structure LevelVersion where
@@ -21,6 +22,30 @@ def parseLevel (s : Str) : Level × Bool :=
   else if s = b!"baseline" then (.baseline, true)
   else if s = b!"restricted" then (.restricted, true)
   else (.restricted, false)
+
+def Level.str : Level → Str
+  | .privileged => b!"privileged"
+  | .baseline => b!"baseline"
+  | .restricted => b!"restricted"
+
+/-- Version.String -/
+def Ver.str : Ver → Str
+  | .latest => b!"latest"
+  | .mm a b => b!"v" ++ itoa a ++ b!"." ++ itoa b
+
+/-- LevelVersion.String -/
+def LevelVersion.str (lv : LevelVersion) : Str := lv.level.str ++ b!":" ++ lv.version.str
+
+def maxInt64 : Nat := 9223372036854775807
+
+/-- ParseVersion: (version, ok). On error the version is latest. `^v1\.([0-9]|[1-9][0-9]*)$` then strconv.Atoi,
+    which rejects values above 2^63-1. -/
+def parseVersion (s : Str) : Ver × Bool :=
+  if s = b!"latest" then (.latest, true)
+  else if b!"v1.".isPrefixOf s then
+    let d := s.drop 3
+    if canonicalDec d && decide (digitsVal d ≤ maxInt64) then (.mm 1 (digitsVal d), true) else (.latest, false)
+  else (.latest, false)
 
 /-- CompareLevels on valid levels -/
 def compareLevels : Level → Level → Int
